@@ -813,6 +813,17 @@ func (vc *VC) classSlice(t types.Type, leaf string) string {
 }
 func (vc *VC) classMap(t types.Type, what string) string { return "M|" + vc.E.typeStr(t) + "|" + what }
 
+// Channel closedness: one heap class per channel element type, ref -> closed?. `make(chan T)` yields a fresh open
+// channel, close(ch) sets the bit (and, under nopanic, must find it unset and ch non-nil), contracts read it with closed(ch).
+func (e *Engine) classChanClosed(t types.Type) string {
+	if ct, ok := t.Underlying().(*types.Chan); ok {
+		return "K|chan|" + e.typeStr(ct.Elem())
+	}
+	return "K|chan|?"
+}
+
+var sortChanClosed = SortArr(SortRef, SortBool)
+
 // subRef is the injective derived reference of a by-value nested field.
 func (vc *VC) subRef(st types.Type, fname string, ref T) T {
 	fn := "gv_sub_" + smtName(vc.E.typeStr(st)) + "_" + smtName(fname)
